@@ -670,7 +670,7 @@ let monitor_line prop line =
        (* the model is the direct computation the helper is specified by *)
        let m = model_line case in
        if obs = m then "PASS" else "FAIL the generated helper differs from direct computation: " ^ first_diff (split_ws obs) (split_ws m)
-     | "C11", "H" :: _ ->
+     | ("C11" | "C01"), "H" :: _ ->
        (* the property itself, on the implementation's observations alone: a never-used copy of the
           description (0), the collection after the history (1, 2, 7) and collections derived from it
           before the history (3, 4) behave identically; the derivation with one more provider (5) and the
